@@ -271,14 +271,19 @@ static ssize_t ck_write(void *vc, const char *buf, size_t size)
     if (!c->writing) { errno = EBADF; return 0; }
     std::string &data = simfs()[c->name];
     size_t n = size;
-    if (c->ff.write_short > 0 && n > (size_t)c->ff.write_short) n = (size_t)c->ff.write_short;
     if (c->ff.write_err_at >= 0) {
 	if (c->pos >= (size_t)c->ff.write_err_at) {
 	    ++g_sim.fired_write_err;
 	    errno = (int)c->ff.write_errno;
 	    return 0;
 	}
-	if (c->pos + n > (size_t)c->ff.write_err_at) n = (size_t)c->ff.write_err_at - c->pos;
+	if (c->pos + n > (size_t)c->ff.write_err_at) {
+	    // the device accepts the bytes up to the fault offset (a torn write); stdio treats the
+	    // short count of a cookie stream as an error without retrying
+	    n = (size_t)c->ff.write_err_at - c->pos;
+	    ++g_sim.fired_write_err;
+	    errno = (int)c->ff.write_errno;
+	}
     }
     data.append(buf, n);
     c->pos += n;
